@@ -2,14 +2,15 @@
     pointer/length pair passed to the kernel covers exactly the structure for the address.
     Property theorems only; model in Model/SockAddr.v, proofs in Proofs/SockAddrProofs.v.
 
-    [AsIs] is the code in /repo, [Fixed] the code after proposed_fix_c16.diff. On the code as
-    it is the two laws fail on two narrow classes (findings H7 and H8): the theorems below
-    state what holds outside these classes (the restriction is an explicit predicate), the
-    exact behaviour inside them, and witnesses refuting the unrestricted statements
-    [sockaddr_roundtrip] and [ptr_len_covers_family_struct]. *)
+    [Fixed] is the code in /repo (after the repairs of H7, H8 and H29), [AsIs] the code before
+    them. On the code as it WAS the two laws failed on two narrow classes (findings H7 and H8):
+    the first group of theorems states what held outside these classes (the restriction is an
+    explicit predicate), the exact behaviour inside them, and witnesses refuting the
+    unrestricted statements [sockaddr_roundtrip] and [ptr_len_covers_family_struct] for [AsIs];
+    the [_fixed] theorems are the full statements for the code as it is. *)
 From A10 Require Import Base.Word Model.SockAddr Proofs.SockAddrProofs.
 
-(** ** The code as it is *)
+(** ** The code before the repairs of H7 and H8 ([AsIs]) *)
 
 (** Every supported address other than a Unix pathname reads back as itself with the length
     the kernel reports; a Unix pathname does with the length that excludes the NUL. *)
